@@ -361,4 +361,25 @@ Definition glue_authmodes (k : string) (a o : list value) : option verdict :=
     end
   else None.
 
-Definition run_case (k : string) (a o : list value) : verdict := first_some [glue_C05; glue_badlocal; glue_ctxdone; glue_authmodes] k a o.
+(* "scion.twopath": MeasureClockOffsetSCION with two clients and two paths, each path with a scripted next hop of its
+   own; args = variant (0: one path answers at once with a response that is rejected at once, the other with the
+   genuine response 300 ms later; 1: both genuine; 2: both rejected), outs = reported(nil error) offset
+   zero-timestamp requests-seen [offset of every measurement a client evaluated].  Relational (which client gets
+   which path, who reports first): a measurement is reported iff a path delivers a genuine response. *)
+Definition glue_twopath (k : string) (a o : list value) : option verdict :=
+  if is k "scion.twopath" then
+    match a, o with
+    | [VZ v], [VZ rep; VZ off; VZ tsz; VZ nreq; VL offsv] =>
+        match getZs offsv with
+        | Some offs =>
+            Some (relational (if v =? 2 then rep =? 0 else negb (rep =? 0))
+                             (if rep =? 0 then true
+                              else C05_call_needs_datagram true (Z.of_nat (length offs)) && C05_call_offset_within off offs &&
+                                   (tsz =? 0) && (1 <=? nreq)))
+        | None => Some (relational false true)
+        end
+    | _, _ => Some (relational false true)
+    end
+  else None.
+
+Definition run_case (k : string) (a o : list value) : verdict := first_some [glue_C05; glue_badlocal; glue_ctxdone; glue_authmodes; glue_twopath] k a o.
